@@ -150,6 +150,9 @@ func body(p params, o *sx.Obs) {
 	case "loop":
 		ctx, cancel := vctx.WithCancel(vctx.Background())
 		done := false
+		if p.Env[0] == "stalled-write" {
+			w.cli.Stall = true // half-open link: the ping write itself never completes
+		}
 		g.Go("loop", func() {
 			err := w.conn.VerifC43PingLoop(ctx)
 			kind := "other"
@@ -267,6 +270,21 @@ func check(p params, o *sx.Obs, x *vsched.Sched) kit.Result {
 				stopStep = st
 			}
 		}
+		if i := o.Index("wire c stalled"); i >= 0 && ret != "other" {
+			// a stalled ping write must be bounded by the ping timeout: some deadline has to be armed when the write
+			// starts, otherwise only the external stop ends the loop
+			var stallStep int
+			scan(o.Events[i], "wire c stalled step=%d", &stallStep)
+			armed := false
+			for _, d := range x.TimerLog {
+				if d.Inline && d.CreatedStep <= stallStep {
+					armed = true
+				}
+			}
+			if !armed {
+				return kit.Bad("loop-survived-stalled-write", "the ping write stalled with no ping deadline armed; the keep-alive loop did not end with an error (%s): %s", ret, o.String())
+			}
+		}
 		if ret == "" {
 			return kit.Bad("loop-stuck", "keep-alive loop never returned: blocked %v; %s", x.Blocked, o.String())
 		}
@@ -319,6 +337,7 @@ func main() {
 			{"loop", []string{"never"}},
 			{"loop", []string{"first-only"}},
 			{"loop", []string{"late"}},
+			{"loop", []string{"stalled-write"}},
 		}
 		bound := 2
 		if c.Thorough() {
@@ -333,7 +352,7 @@ func main() {
 		}
 		c.Rule("real mtproto.Conn ping paths (instrumented mtproto, in-package construction over an in-memory wire, frames opened with a reference MTProto 2.0 "+
 			"decryptor to learn the ping id): Ping x environment {own pong, pong for another id, duplicate own pong, cancel}; pingLoop on the virtual clock "+
-			"(interval 10s, timeout 5s, 35s horizon) x server {always answers, never, first only, answers 6s late}; every schedule with <= %d "+
+			"(interval 10s, timeout 5s, 35s horizon) x server {always answers, never, first only, answers 6s late, ping write stalls}; every schedule with <= %d "+
 			"preemptions/early timers and <= 6 non-default free choices. Oracle: Ping returns nil only after an own-id pong delivery began, a cancellation "+
 			"error only after the cancel; the loop sends the next ping only after the previous pong was delivered, ends with an error when a ping is never answered and its timeout fired before the stop, and never hangs (a pong that arrives after the deadline fired but before the loop noticed is a race the statement leaves open).", bound)
 		type unit struct{ sc, shard, shards int }
